@@ -77,6 +77,9 @@ def render_module(params, defaults, calls):
             continue
         a = ", ".join([lit(v) for v in pos] + [f"{k}={lit(v)}" for k, v in kws])
         lines += [f"def w{i}():", f"    return dds.keep('/s', f{', ' if a else ''}{a})", "", ""]
+    # a plain (not kept) call of f with explicit arguments, analysed before everything else in this process
+    full = ", ".join(f"{p}={lit(defaults[p]) if defaults[p] is not NO else '0'}" for p in params)
+    lines += ["def pre():", f"    return f({full})", "", ""]
     # two kept calls of f in ONE evaluation (different bindings, different paths)
     ok = [i for i, (pos, kws) in enumerate(calls) if in_source_ok(pos, kws)]
     for n, (i, j) in enumerate(zip(ok, ok[1:] + ok[:1])):
@@ -194,6 +197,7 @@ def check_round(case, enc_defaults, ev, redefine_mod):
         owner += [bi] * len(sp)
     src = render_module(params, defaults, calls)
     mod = e.load(src) if redefine_mod is None else e.redefine(redefine_mod, src)
+    e.dds.eval(mod.pre)
     by_binding = {}
     descr = {}
     for i, (pos, kws) in enumerate(calls):
